@@ -93,13 +93,15 @@ def run_tlc(name, extends, defs, cfg, on_value=None, workers=16, timeout=3600,
         try:
             for line in p.stdout:
                 if line.startswith('"'):
-                    res["lines"] += 1
-                    if on_value is not None:
-                        try:
-                            on_value(json.loads(json.loads(line)))
-                        except ValueError:
-                            raise TLCError("unparseable TLC output line: %r" % line[:200])
-                    continue
+                    try:
+                        val = json.loads(json.loads(line))
+                    except (ValueError, TypeError):
+                        val = None          # part of an error trace, not an emission
+                    if val is not None:
+                        res["lines"] += 1
+                        if on_value is not None:
+                            on_value(val)
+                        continue
                 if len(res["log"]) < 400:
                     res["log"].append(line.rstrip("\n"))
                 m = re.match(r"(\d+) states generated, (\d+) distinct states found", line)
